@@ -155,7 +155,7 @@ def fam_unknown():
 
 def fam_ids():
     out = []
-    for name, ids in (('IdLo', [0, 1, 62, 63, 64, 65]), ('IdMid', [127, 128, 255, 256, 257]), ('IdHi', [32767, 32768, 65534])):
+    for name, ids in (('IdLo', [0, 1, 62, 63, 64, 65]), ('IdMid', [127, 128, 255, 256, 257]), ('IdHi', [32767, 32768, 65534]), ('IdMax', [1, 65535])):
         fs = []
         for n, i in enumerate(ids):
             fs.append(Field(i, ['default', 'required', 'optional'][n % 3], S(['i8', 'i16', 'string', 'i64', 'bool', 'double'][n % 6]), name='F%d' % i, ptr=(n % 3 == 2)))
@@ -262,4 +262,28 @@ def mk_dprec():
 DPREC = mk_dprec()
 DPSKIP = StructDef('DpSkip', [Field(1, 'default', S('i32'), name='V')], has_unknown=True)
 
-FAMILIES = {'mutmsg': fam_mutmsg, 'mutmsg_full': lambda: fam_mutmsg(True), 'twin': fam_twin, 'hist': fam_hist, 'threshold': fam_threshold, 'threshold_full': lambda: fam_threshold(True), 'dec2': fam_dec2, 'default': fam_default, 'nocopy': fam_nocopy, 'unknown': fam_unknown, 'ids': fam_ids, 'nest': fam_nest, 'evolve': fam_evolve, 'evolve_full': lambda: fam_evolve(6), 'required': fam_required, 'bytes8': lambda: fam_bytes(8), 'bytes12': lambda: fam_bytes(12), 'scalar': fam_scalar, 'list': fam_list, 'map': fam_map}
+def fam_spelling():
+    # C12: one schema, every equivalent spelling of its tags; plus decoy fields that must be ignored
+    def fields(sp):
+        return [Field(1, 'default', S('i8'), spelling=sp), Field(2, 'required', S('string'), spelling=sp), Field(3, 'optional', ('list', S('i32')), spelling=sp),
+                Field(4, 'default', ('map', S('string'), ('struct', LEAF, True)), spelling=sp), Field(5, 'optional', ('struct', LEAF, True), spelling=sp),
+                Field(6, 'default', ('set', S('enum')), spelling=sp), Field(7, 'optional', S('binary'), spelling=sp), Field(8, 'default', S('double'), spelling=sp),
+                Field(9, 'default', S('i64'), spelling=sp), Field(300, 'default', ('map', S('i8'), ('list', ('set', S('i16')))), spelling=sp)]
+    variants = {
+        'SpFrugal': {}, 'SpThrift': {'thrift': True}, 'SpBoth': {'both': True}, 'SpOmit': {'omit_scalar_annot': True}, 'SpByte': {'byte': True},
+        'SpQual': {'pkgqual': True}, 'SpSpaces': {'spaces': True}, 'SpThriftMin': {'thrift': True, 'omit_scalar_annot': True, 'omit_default_req': True},
+        'SpThriftSpaces': {'thrift': True, 'spaces': True, 'byte': True},
+    }
+    sm = {'codec': [{'S': 2, 'L': 2, 'M': 2, 'D': 1, 'shape': 2}, {'S': 1, 'L': 1, 'M': 1, 'D': 1, 'shape': 0}, {'S': 1, 'L': 1, 'M': 1, 'D': 1, 'shape': 1}]}
+    out = [{'sd': StructDef(n, fields(sp)), 'kinds': ['codec'], 'params': sm} for n, sp in variants.items()]
+    decoys = ['Untagged int32', 'NoTag string `json:"x"`', 'hidden int64 `frugal:"11,default,i64"`', 'Leaf `frugal:"12,default,Leaf"`',
+              'OtherTag []int32 `thrift2:"13,default"`']
+    out.append({'sd': StructDef('SpDecoy', fields({}), extra_go_fields=decoys), 'kinds': ['codec'], 'params': sm})
+    # declaration order different from id order
+    fs = fields({})
+    sd = StructDef('SpOrder', fs)
+    sd.decl_fields = list(reversed(sd.fields))
+    out.append({'sd': sd, 'kinds': ['codec'], 'params': sm})
+    return out
+
+FAMILIES = {'spelling': fam_spelling, 'mutmsg': fam_mutmsg, 'mutmsg_full': lambda: fam_mutmsg(True), 'twin': fam_twin, 'hist': fam_hist, 'threshold': fam_threshold, 'threshold_full': lambda: fam_threshold(True), 'dec2': fam_dec2, 'default': fam_default, 'nocopy': fam_nocopy, 'unknown': fam_unknown, 'ids': fam_ids, 'nest': fam_nest, 'evolve': fam_evolve, 'evolve_full': lambda: fam_evolve(6), 'required': fam_required, 'bytes8': lambda: fam_bytes(8), 'bytes12': lambda: fam_bytes(12), 'scalar': fam_scalar, 'list': fam_list, 'map': fam_map}
